@@ -162,6 +162,7 @@ class Executor:
         self.solver.set("timeout", 5000)
         self._seq_cache = {}
         self.use_solver_pruning = True
+        self.unroll = 1              # how often a block may be visited on one path (1 = loop-free bodies only)
         self.fresh_n = 0
         self.max_paths = max_paths
         self.npaths = 0
@@ -185,6 +186,14 @@ class Executor:
             r = z3.is_seq(e) or any(self._mentions_seq(c) for c in e.children())
             self._seq_cache[k] = r
         return r
+
+    def path_satisfiable(self, st):
+        """exact satisfiability of the whole path condition (used for unwinding assertions)"""
+        sv = z3.Solver()
+        sv.set("timeout", 20000)
+        for c in st.pc:
+            sv.add(c)
+        return sv.check() != z3.unsat
 
     def feasible(self, st, extra=None):
         """path pruning only (keeping an infeasible path is harmless): conjuncts over sequences are left out, so that the
@@ -274,6 +283,11 @@ class Executor:
                 val = Agg(pl)
             elif p[0] == "constindex" and hasattr(val, "at"):
                 val = val.at(p[1])
+            elif p[0] == "index" and hasattr(val, "at"):
+                idx = st.frames[frame].get(p[1], UNINIT)
+                if not z3.is_bv(idx):
+                    raise Unsupported("index operand %r" % (idx,))
+                val = val.at(idx)
             else:
                 raise Unsupported("projection %r" % (p,))
         return val
@@ -586,6 +600,8 @@ class Executor:
         if len(segs) >= 2 and segs[-2] in self.enums and last in self.enums[segs[-2]]:
             idx = self.enums[segs[-2]].index(last)
             return EnumV(segs[-2], idx, {idx: list(vals.values())})
+        if re.fullmatch(r"[A-Z][A-Za-z0-9_]*", last):
+            return Agg(list(vals.values()), last)      # library struct (Range, RangeTo, ...): fields in the order written
         raise Unsupported("struct aggregate %s" % rv.path)
 
     def make_ctor(self, st, f, rv, dest_ty):
@@ -649,15 +665,22 @@ class Executor:
             frame[loc] = v
         st.frames.append(frame)
         outs = []
-        work = [(st, 0, set())]
+        work = [(st, 0, {})]
         while work:
             s, bb, seen = work.pop()
             while True:
                 self.blocks_visited += 1
                 key = bb
-                if key in seen:
-                    raise Unsupported("loop in %s at bb%d (only loop-free bodies are encoded)" % (f.name, bb))
-                seen = seen | {key}
+                cnt = seen.get(key, 0)
+                if cnt >= self.unroll:
+                    if self.unroll == 1:
+                        raise Unsupported("loop in %s at bb%d (only loop-free bodies are encoded here)" % (f.name, bb))
+                    # unwinding bound reached: sound only if this path is infeasible (unwinding assertion)
+                    if self.path_satisfiable(s):
+                        raise Unsupported("unwinding bound %d exceeded in %s at bb%d on a feasible path" % (self.unroll, f.name, bb))
+                    break
+                seen = dict(seen)
+                seen[key] = cnt + 1
                 blk = f.block(bb)
                 for stmt in blk["stmts"]:
                     if stmt.kind == "assign":
